@@ -132,6 +132,7 @@ def run(ck, F):
     sub = F.need_fn('ipr::impl::Scope::operator[](const ipr::Name &) const')
     tables.update(K.factory(mv, second=sub, this2=lambda st, v: ('sym', 'this')))
     K.finish_cover()
+    K.finish_partial((('ipr::impl::Scope::make_alias(', 1, 'an alias is declared with the type of its initializer: the entry is keyed by that type'),))
     for r in (K.R_diag, K.R_lex):
         ck.rules[r]['floor'] = 9
     ck.rules[K.R_cover]['floor'] = 8
